@@ -8,6 +8,15 @@
 (c) floating point: the DAG of the smallest plain-kernel instance is lowered to QF_FP (Float64 vs Float128):
     do normal inputs exist for which the plain path returns a finite value that is wrong by more than 2^-20?
     A sat answer is replayed through the public API on a JC69 caterpillar (size searched concretely).
+(d) floating point, switching evaluation: TreeLikelihoodModel.calculate_with_tip_partials is executed symbolically with the
+    model's OWN threshold on trees of <= 4 leaves whose leaves stand for sub-trees of any size (free doubles satisfying the
+    invariant of the recursion: every site has an entry >= threshold).  Per path region (which nodes the safe kernel
+    recomputes; coverage certified) the solver decides, in a sound log2-magnitude abstraction of Float64 (QF_LRA), that no
+    per-site scaler and no log argument can fall below 2^-969 (un-rescaled partials kept by the threshold test cannot
+    underflow when they are multiplied), that a -inf plain result always makes the kernel rescale some node, and that every
+    node satisfies the invariant again (induction over the tree).  The same for evaluations after the switch.
+    Counterexamples are replayed on the real code with plain tensors against an exact rational reference, then confirmed
+    through the public API on a balanced JC69 tree with 1024 taxa.
 """
 from __future__ import annotations
 
@@ -562,8 +571,560 @@ def rescaled_api_confirmation(tip_states, n=700):
     return False, f'evaluations {v1}, {v2} finite and consistent'
 
 
+# ------------------------------------------------------------------ (d) floating point, switching evaluation
+# The evaluation that switches rescaling on runs calculate_treelikelihood_discrete_safe with the MODEL'S OWN threshold:
+# nodes whose plain partials are not below the threshold keep them un-rescaled.  A sub-tree of any size enters the
+# recursion only through its partial vector, so the children of a bounded instance are free non-negative doubles
+# constrained by the invariant the recursion itself establishes ("every site has an entry >= threshold": kept nodes by
+# the kernel's test, rescaled nodes because their maximum is 1, tips because a tip column contains a 1).  One symbolic
+# execution of the real switch code per path region (which nodes are recomputed); every denominator (= per-site scaler)
+# and every log argument of the switching evaluation must be a normal double with 53 bits to spare, and every node must
+# again satisfy the invariant (induction step).  Decided in the log2-magnitude abstraction of Float64 (symtorch/fp.py).
+SW_MLO = 100  # transition probabilities in [2^-100, 1]
+SW_PLO = 10  # equilibrium frequencies in [2^-10, 1]
+SW_B = -969  # 2^-1022 * 2^53
+SW_TOPOS = {'caterpillar3': (((0, 1), 2), 3), 'balanced4': (((0, 1), (2, 3)), 4), 'caterpillar4': ((((0, 1), 2), 3), 4)}
+
+
+def sw_model_json(topo, n, S):
+    codes = 'abcd'[:S]
+    taxa = cm.taxa_json(n)
+    tree = cm.unrooted_tree_json(topo, n)
+    tree['taxa'] = taxa
+    seqs = {f't{i}': codes[i % S] + codes[(i // 2) % S] for i in range(n)}
+    return {'id': 'like', 'type': 'TreeLikelihoodModel', 'tree_model': tree,
+            'site_model': {'id': 'site', 'type': 'ConstantSiteModel'},
+            'substitution_model': {'id': 'subst', 'type': 'GeneralJC69', 'state_count': S},
+            'site_pattern': {'id': 'sp', 'type': 'SitePattern',
+                             'alignment': cm.alignment_json(seqs, taxa='taxa',
+                                                            datatype={'id': 'dt', 'type': 'GeneralDataType', 'codes': list(codes)})}}
+
+
+def sw_shapes(n, S, N):
+    shapes = {'P': (2 * n - 1, 1, S, S), 'pi': (1, S)}
+    for i in range(n):
+        shapes[f'tip{i}'] = (S, N)
+    return shapes
+
+
+def sw_tensors(W, n, S, N):
+    out = {}
+    for prefix, shape in sw_shapes(n, S, N).items():
+        out[prefix] = torch.tensor([W[x] for x in cm.names_shaped(prefix, shape)], dtype=torch.float64).reshape(shape)
+    return out
+
+
+def sw_default_witness(n, S, N, leaf_scale):
+    """leaf_scale[i][site]: magnitude of the partial column of leaf i"""
+    W = {}
+    k = 0
+    for name in cm.names_shaped('P', (2 * n - 1, 1, S, S)):
+        W[name] = 0.25 + 0.25 * ((0.37 + 0.618 * k) % 1.0)
+        k += 1
+    for j, name in enumerate(cm.names_shaped('pi', (1, S))):
+        W[name] = (1.0 + 0.5 * j) / (S + 0.25 * S * (S - 1))
+    for i in range(n):
+        for s_ in range(S):
+            for site in range(N):
+                W[f'tip{i}[{s_},{site}]'] = leaf_scale[i][site] * (1.0 if (s_ + i) % S == 0 else 0.5 ** (1 + (s_ + i) % S))
+    return W
+
+
+def ite_max_handler(saved, ismax=True):
+    """torch.max / torch.min (x, dim, keepdim) as an if-then-else chain (exact, no path condition)"""
+
+    def h(func, args, kwargs):
+        x = args[0]
+        dim = args[1] if len(args) > 1 else kwargs.get('dim')
+        if not isinstance(dim, int) or not isinstance(x, SymTensor):
+            return saved(func, args, kwargs)
+        keepdim = kwargs.get('keepdim', args[2] if len(args) > 2 else False)
+        d = cur().dag
+        ids = x._ids.movedim(dim, -1)
+        out = []
+        for row in ids.reshape(-1, ids.shape[-1]).tolist():
+            m = row[0]
+            for o in row[1:]:
+                m = d.ite(d.le(m, o), o, m) if ismax else d.ite(d.le(o, m), o, m)
+            out.append(m)
+        oid = torch.tensor(out, dtype=torch.int64).reshape(ids.shape[:-1])
+        idx = (torch.argmax if ismax else torch.argmin)(x._v.movedim(dim, -1), -1)
+        if keepdim:
+            oid, idx = oid.unsqueeze(dim), idx.unsqueeze(dim)
+        return (torch.return_types.max if ismax else torch.return_types.min)((from_ids(oid), idx))
+
+    return h
+
+
+class SwRun:
+    pass
+
+
+def sw_trace(topo, n, S, N, W, mode):
+    """one symbolic execution of the REAL TreeLikelihoodModel.calculate_with_tip_partials on a fresh model of the tree
+    under test: mode 'switch' = first evaluation whose plain result is reported infinite, 'later' = rescale already on"""
+    from torchtree.evolution import tree_likelihood as tl
+
+    r = SwRun()
+    saved_max, saved_min, saved_inf = HANDLERS['max'], HANDLERS['min'], HANDLERS['isinf']
+    real_safe = tl.calculate_treelikelihood_discrete_safe
+    with tracing() as t:
+        HANDLERS['max'] = ite_max_handler(saved_max)
+        HANDLERS['min'] = ite_max_handler(saved_min, ismax=False)
+        HANDLERS['isinf'] = lambda f, a, k: torch.ones(tuple(a[0]._v.shape), dtype=torch.bool)
+        try:
+            like, _ = cm.build(sw_model_json(topo, n, S))
+            r.thr = like.threshold
+            T = sw_tensors(W, n, S, N)
+            mats, freqs = new_vars('P', T['P']), new_vars('pi', T['pi'])
+            props = torch.ones(1, 1, 1, dtype=torch.float64)
+            like.partials = [new_vars(f'tip{i}', T[f'tip{i}']) for i in range(n)] + [None] * (n - 1)
+            like.weights = torch.ones(N, dtype=torch.float64)
+            like.rescale = mode == 'later'
+            r.leaf_ids = [p._ids.clone() for p in like.partials[:n]]
+            marks = {'den': 0, 'dom': 0, 'plain': None}
+
+            def rec(partials, *a, **k):
+                marks['den'], marks['dom'] = len(t.denominators), len(t.domains)
+                marks['plain'] = [p._ids.clone() for p in partials]
+                return real_safe(partials, *a, **k)
+
+            tl.calculate_treelikelihood_discrete_safe = rec
+            r.raised = None
+            try:
+                r.val = like.calculate_with_tip_partials(mats, freqs, props)
+            except ValueError as e:
+                if 'non-empty' not in str(e):
+                    raise
+                r.raised = str(e)
+            r.rescale_flag = bool(like.rescale)
+        finally:
+            tl.calculate_treelikelihood_discrete_safe = real_safe
+            HANDLERS['max'], HANDLERS['min'], HANDLERS['isinf'] = saved_max, saved_min, saved_inf
+    r.t, r.d = t, t.dag
+    r.post = [tuple(x) for x in like.tree_model.postorder]
+    r.pcs = list(t.pcs)
+    r.entered_safe = marks['plain'] is not None
+    r.dens = list(t.denominators[marks['den']:])
+    r.logargs = [x for k_, x in t.domains[marks['dom']:] if k_ == 'pos']
+    r.plain_logargs = [x for k_, x in t.domains[:marks['dom']] if k_ == 'pos'] if r.entered_safe else []
+    r.final = [None if p is None else p._ids.clone() for p in like.partials]
+    r.recomputed = []
+    if r.entered_safe and not r.raised:
+        r.recomputed = [nd for nd in range(n, 2 * n - 1) if not torch.equal(marks['plain'][nd], r.final[nd])]
+    elif mode == 'later':
+        r.recomputed = list(range(n, 2 * n - 1))
+    return r
+
+
+def sw_column_invariant(d, ids, bound):
+    """for every site: some entry (over categories and states) >= bound"""
+    x = ids.reshape(-1, ids.shape[-1])
+    return [d.or_(*[d.le(bound, int(x[j, site])) for j in range(x.shape[0])]) for site in range(x.shape[1])]
+
+
+def sw_in_domain(W, n, S, N, leaf_bound):
+    """the concrete point satisfies the stated input domain (checked in Float64 before any replay is believed)"""
+    T = sw_tensors(W, n, S, N)
+    if not bool(((T['P'] >= 2.0 ** -SW_MLO) & (T['P'] <= 1.0)).all()) or not bool(((T['pi'] >= 2.0 ** -SW_PLO) & (T['pi'] <= 1.0)).all()):
+        return False
+    for i in range(n):
+        x = T[f'tip{i}']
+        if not bool(((x >= 0) & (x <= 1.0)).all()) or not bool((x.max(0)[0] >= leaf_bound).all()):
+            return False
+    return True
+
+
+def sw_exact_reference(T, post, n):
+    from fractions import Fraction
+
+    S, N = T['tip0'].shape
+    F = lambda x: Fraction(float(x))
+    part = {i: [[F(T[f'tip{i}'][s_, site]) for site in range(N)] for s_ in range(S)] for i in range(n)}
+    P = T['P']
+    for node, left, right in post:
+        cur_ = []
+        for s_ in range(S):
+            row = []
+            for site in range(N):
+                a = sum(F(P[left, 0, s_, j]) * part[left][j][site] for j in range(S))
+                b = sum(F(P[right, 0, s_, j]) * part[right][j][site] for j in range(S))
+                row.append(a * b)
+            cur_.append(row)
+        part[node] = cur_
+    root = post[-1][0]
+    tot = 0.0
+    for site in range(N):
+        L = sum(F(T['pi'][0, s_]) * part[root][s_][site] for s_ in range(S))
+        if L <= 0:
+            return None
+        tot += math.log(L.numerator) - math.log(L.denominator)
+    return tot
+
+
+def sw_replay(topo, n, S, N, W, mode, allow_oracle=True):
+    """the real code on plain float64 tensors against an exact rational reference.
+    Returns (reproduced, detail, info)"""
+    import torchtree.evolution.tree_likelihood  # noqa
+
+    T = sw_tensors(W, n, S, N)
+    props = torch.ones(1, 1, 1, dtype=torch.float64)
+    info = {}
+
+    def run(oracle):
+        like, _ = cm.build(sw_model_json(topo, n, S))
+        like.partials = [T[f'tip{i}'].clone() for i in range(n)] + [None] * (n - 1)
+        like.weights = torch.ones(N, dtype=torch.float64)
+        like.rescale = mode == 'later'
+        real_isinf = torch.isinf
+        if oracle:
+            torch.isinf = lambda x: torch.ones(tuple(x.shape), dtype=torch.bool)
+        try:
+            val = like.calculate_with_tip_partials(T['P'], T['pi'], props)
+        finally:
+            torch.isinf = real_isinf
+        return like, val
+
+    post = None
+    try:
+        like, val = run(False)
+        how = 'the plain result is -inf, the model switches to rescaling by itself'
+        if mode == 'switch' and not like.rescale:
+            if not allow_oracle:
+                return False, 'the plain result is finite on this point: the model does not switch', info
+            like, val = run(True)
+            how = 'the switch is triggered by another site pattern (infinity test answered true)'
+        post = [tuple(x) for x in like.tree_model.postorder]
+    except Exception as e:
+        info['raised'] = f'{type(e).__name__}: {e}'
+        return True, f'raised {type(e).__name__}: {e}', info
+    got = float(val.reshape(-1)[0])
+    ref = sw_exact_reference(T, post, n)
+    info.update({'value': got, 'exact_reference': ref, 'threshold': float(like.threshold), 'how': how})
+    cols = []
+    for nd in range(n, 2 * n - 1):
+        p = like.partials[nd]
+        cols.append(float(p.reshape(-1, p.shape[-1]).max(0)[0].min()))
+    info['smallest_column_maximum_of_internal_nodes'] = min(cols)
+    if ref is None:
+        return False, 'exact likelihood is zero (outside the property)', info
+    if not math.isfinite(got) or abs(got - ref) > 1e-8 * abs(ref):
+        return True, (f'threshold {float(like.threshold)!r}: the switching evaluation returns {got!r}, exact rational reference {ref!r} '
+                      f'({how})'), info
+    return False, f'value {got!r} agrees with the exact reference {ref!r}', info
+
+
+def sw_api_confirmation(depth=10, lengths=(0.2, 0.5, 0.35, 0.8)):
+    """public API only: JC69, perfectly balanced tree with 2^depth taxa, two site patterns.  The evaluation that switches
+    rescaling on is compared with the fully rescaled evaluation of a fresh model (extended-range reference)."""
+    import torchtree.evolution.tree_likelihood  # noqa
+
+    n = 2 ** depth
+
+    def bal(lo, hi):
+        if hi - lo == 1:
+            return f't{lo}'
+        mid = (lo + hi) // 2
+        return '(' + bal(lo, mid) + ',' + bal(mid, hi) + ')'
+
+    def model(bl):
+        tree = {'id': 'tree', 'type': 'UnRootedTreeModel', 'newick': bal(0, n) + ';',
+                'branch_lengths': {'id': 'tree.blens', 'type': 'Parameter', 'tensor': [bl] * (2 * n - 3)}, 'taxa': cm.taxa_json(n)}
+        seqs = {f't{i}': 'ACGT'[(i * 7 + i // 3) % 4] + 'ACGT'[(i // 5) % 4] for i in range(n)}
+        js = {'id': 'like', 'type': 'TreeLikelihoodModel', 'tree_model': tree, 'site_model': {'id': 's', 'type': 'ConstantSiteModel'},
+              'substitution_model': {'id': 'm', 'type': 'JC69'},
+              'site_pattern': {'id': 'sp', 'type': 'SitePattern', 'alignment': cm.alignment_json(seqs, taxa='taxa')}}
+        l, dic = cm.build(js)
+        dic['tree.blens'].tensor = dic['tree.blens'].tensor.to(torch.float64)
+        return l
+
+    worst = None
+    for bl in lengths:
+        try:
+            l = model(bl)
+            v = float(l())
+            switched = bool(l.rescale)
+            l2 = model(bl)
+            l2.rescale = True
+            ref = float(l2())
+        except Exception as e:
+            return True, f'balanced JC69 tree with {n} taxa, branch length {bl}: raised {type(e).__name__}: {e}'
+        if not switched or not math.isfinite(ref):
+            continue
+        bad = (not math.isfinite(v)) or abs(v - ref) > 1e-8 * abs(ref)
+        if bad:
+            msg = (f'balanced JC69 tree with {n} taxa, all branch lengths {bl}: the evaluation that switches rescaling on returns {v!r}, '
+                   f'the fully rescaled evaluation {ref!r}')
+            if not math.isfinite(v):
+                return True, msg
+            worst = worst or msg
+    if worst:
+        return True, worst
+    return False, f'balanced JC69 trees with {n} taxa, branch lengths {list(lengths)}: switching evaluation agrees with the rescaled one'
+
+
+def fpswitch_task(task, tr):
+    from symtorch import fp, smt
+    from torchtree.evolution import tree_likelihood as tl
+
+    _, topo_name, S, N, mode = task
+    topo, n = SW_TOPOS[topo_name]
+    label = f'floating point, {"switching" if mode == "switch" else "later (rescaled)"} evaluation: {topo_name} S={S} N={N}'
+    tr.fn(tl.TreeLikelihoodModel.__init__, tl.TreeLikelihoodModel.calculate_with_tip_partials, tl.calculate_treelikelihood_discrete,
+          tl.calculate_treelikelihood_discrete_safe, tl.calculate_treelikelihood_discrete_rescaled)
+    tr.bounds['fp switch'] = (f'trees of <= 4 leaves (3 in the quick tier) whose leaves stand for arbitrary sub-trees (free non-negative doubles <= 1, '
+                              f'zero and subnormal included, satisfying the recursion\'s invariant), S <= 4 states, K = 1 rate category, <= 2 site '
+                              f'patterns, float64 only (the engine traces in float64: the float32 threshold is not examined); transition '
+                              f'probabilities in [2^-{SW_MLO}, 1], frequencies in [2^-{SW_PLO}, 1]; with K >= 2 categories the per-site scaler is '
+                              f'shared by the categories (a category 2^-1000 below the leading one is flushed by design): not examined; tip-state '
+                              f'kernels take integer tip states, sub-trees cannot be abstracted there: not examined')
+    tr.stubs |= {'(d) torch.max / torch.min over a dimension are expanded to exact if-then-else chains',
+                 '(d) torch.isinf(log_p) answers true: the switch is triggered by this or by another site pattern',
+                 '(d) matrix-vector products are expanded to sums of products; the relation used for a sum (max <= result <= #terms * max) '
+                 'holds for every summation order and for fused multiply-add',
+                 '(d) Float64 operations are replaced by the log2-magnitude relation of symtorch/fp.py (sound over-approximation of IEEE-754 '
+                 'round-to-nearest on non-negative operands: unsat is sound, sat is replayed on the real code)'}
+    tr.assumptions |= {'(d) a sub-tree influences its parent only through its partial vector; induction over the tree: leaves satisfy the invariant, '
+                       'each bounded instance proves that every node of the instance satisfies it again',
+                       '(d) standard model of floating-point arithmetic: when no scaler and no log argument falls below 2^-969 every entry within '
+                       '2^-53 of the per-site maximum is computed without gradual-underflow loss',
+                       f'(d) every transition probability is a double in [2^-{SW_MLO}, 1] (strictly positive), frequencies in [2^-{SW_PLO}, 1]'}
+    solver_kw = dict(timeout=60.0 * TSCALE, solvers=('z3', 'cvc5', 'z3new'), parallel=False)
+
+    # ---- witnesses: heuristics first, then models of the closure query
+    with tracing():
+        probe, _ = cm.build(sw_model_json(topo, n, S))
+    thr0 = probe.threshold
+    try:
+        thr0 = float(thr0)
+    except Exception:
+        tr.inconc(f'{label}: the model threshold {thr0!r} is not a number')
+        return
+    if not (math.isfinite(thr0) and thr0 >= 0):
+        tr.inconc(f'{label}: model threshold {thr0!r} outside [0, inf)')
+        return
+    if thr0 > 0.5:
+        tr.inconc(f'{label}: model threshold {thr0!r} > 1/2: a rescaled node (maximum 1, proved >= 1/2) is not covered by the invariant')
+        return
+    leaf_bound = thr0 if mode == 'switch' else 0.5
+    root_t = math.sqrt(thr0) if thr0 > 0 else 1e-150
+    queue = []
+    if mode == 'switch':
+        for scales in ([8 * root_t] * 2 + [2.0 ** -10] * (n - 2), [root_t / 8] * n, [0.5] * n, [2.0 ** -10] * n):
+            ls = [[max(min(sc, 1.0), leaf_bound, 5e-324), 0.5] for sc in scales]
+            queue.append(sw_default_witness(n, S, N, [l[:N] for l in ls]))
+    else:
+        queue.append(sw_default_witness(n, S, N, [[1.0] * N for _ in range(n)]))
+    base_W = queue[-1]
+
+    def domain_and_blocks(run, extra_roots):
+        """lower one run; returns (lines, ref, domain asserts, inputs)"""
+        d = run.d
+        inv = []
+        for i in range(n):
+            inv += sw_column_invariant(d, run.leaf_ids[i], d.const(leaf_bound))
+        roots = list(run.pcs) + inv + list(extra_roots)
+        lines, ref, inputs = fp.lower_mag(d, roots)
+        dom = []
+        for name, z, e in inputs:
+            if name.startswith('P['):
+                dom.append(f'(and (not {z}) (<= (- {SW_MLO}.0) {e}) (<= {e} 0.0))')
+            elif name.startswith('pi['):
+                dom.append(f'(and (not {z}) (<= (- {SW_PLO}.0) {e}) (<= {e} 0.0))')
+            else:
+                dom.append(f'(or {z} (and (<= (- 1074.0) {e}) (<= {e} 0.0)))')
+        dom += [ref[c][1] for c in inv]
+        return lines, ref, dom, inputs
+
+    def leaf_inv_nodes(run):
+        out = []
+        for i in range(n):
+            out += sw_column_invariant(run.d, run.leaf_ids[i], run.d.const(leaf_bound))
+        return out
+
+    def model_to_W(inputs, values, offset=0):
+        Wn = dict(base_W)
+        for k, (name, z, e) in enumerate(inputs):
+            Wn[name] = fp.mag_value(bool(values[offset + 2 * k]), values[offset + 2 * k + 1])
+        return Wn
+
+    def getters(inputs):
+        g = []
+        for name, z, e in inputs:
+            g.append((name, z, 'Bool'))
+            g.append((name, e, 'Real'))
+        return g
+
+    regions = []  # (run, lines, ref, dom, inputs)
+    seen_keys = set()
+    all_inputs = {}
+    closed = False
+    for it in range(40):
+        if queue:
+            W = queue.pop(0)
+        else:
+            # closure query: a point of the domain outside every explored region
+            blocks = [rg[1] for rg in regions]
+            asserts = list(dict.fromkeys(a for rg in regions for a in rg[3]))
+            for rg in regions:
+                pcs = [rg[2][c][1] for c in rg[0].pcs]
+                asserts.append('(not (and true ' + ' '.join(pcs) + '))')
+            inputs = list(all_inputs.values())
+            text, gv = fp.mag_script(blocks, asserts, getters(inputs))
+            tr.obligation(text)
+            res = smt.solve_text(text, get_values=gv, **solver_kw)
+            if res.status == 'unsat':
+                closed = True
+                tr.closures += 1
+                break
+            if res.status != 'sat':
+                tr.inconc(f'{label}: closure query undecided after {len(regions)} regions')
+                return
+            # witness search only: the same query with every comparison of the path conditions decided by a factor >= 2^margin,
+            # so that the concrete point lies inside the region the model describes (simplex models sit on the boundaries)
+            for margin in (24, 8, 2):
+                robust = []
+                for rg in regions:
+                    robust += fp.mag_margins(rg[0].d, rg[0].pcs, rg[2], margin)
+                text2, gv2 = fp.mag_script(blocks, asserts + list(dict.fromkeys(robust)), getters(inputs))
+                res2 = smt.solve_text(text2, get_values=gv2, **solver_kw)
+                if res2.status == 'sat':
+                    res = res2
+                    break
+            W = model_to_W(inputs, res.values)
+        try:
+            run = sw_trace(topo, n, S, N, W, mode)
+        except Exception as e:
+            ok, detail, info = sw_replay(topo, n, S, N, W, mode) if sw_in_domain(W, n, S, N, leaf_bound) else (False, '', {})
+            if ok:
+                tr.violation('TreeLikelihoodModel:switch-evaluation:unscaled-product-underflows' if mode == 'switch'
+                             else 'TreeLikelihoodModel:rescaled-evaluation:scaler-underflows',
+                             f'{label}: {detail}', {'inputs': W, 'info': info, 'mode': mode, 'instance': [topo_name, S, N]})
+                return
+            tr.inconc(f'{label}: symbolic execution failed at a witness ({type(e).__name__}: {e})')
+            return
+        tr.witness_runs += 1
+        key = (run.raised is not None, tuple(sorted(run.d.to_str(c, 60) for c in run.pcs)))
+        if key in seen_keys:
+            continue
+        seen_keys.add(key)
+        extra = list(run.dens) + list(run.logargs) + list(run.plain_logargs)
+        for nd in run.recomputed:
+            extra += [int(x) for x in run.final[nd].reshape(-1).tolist()]
+        for nd in range(n, 2 * n - 1):
+            if run.final[nd] is not None:
+                extra += [int(x) for x in run.final[nd].reshape(-1).tolist()]
+        lines, ref, dom, inputs = domain_and_blocks(run, extra)
+        for inp in inputs:
+            all_inputs[inp[0]] = inp
+        regions.append((run, lines, ref, dom, inputs))
+        tr.regions += 1
+    if not closed:
+        tr.inconc(f'{label}: region enumeration not closed after {len(regions)} regions')
+        return
+
+    # vacuity guard: the domain (with the leaf invariant at the model's threshold) is not empty
+    rg0 = regions[0]
+    text, _ = fp.mag_script([rg0[1]], rg0[3])
+    r0 = smt.solve_text(text, **solver_kw)
+    if r0.status != 'sat':
+        tr.inconc(f'{label}: the input domain is empty or undecided ({r0.status}) for threshold {thr0!r}')
+        return
+
+    sig_under = ('TreeLikelihoodModel:switch-evaluation:unscaled-product-underflows' if mode == 'switch'
+                 else 'TreeLikelihoodModel:rescaled-evaluation:scaler-underflows')
+    reported = set()
+    for run, lines, ref, dom, inputs in regions:
+        d = run.d
+        hyps = dom + [ref[c][1] for c in run.pcs]
+        region_txt = ('kernel raised: no node below the threshold' if run.raised else
+                      f'recomputed nodes {run.recomputed}') if mode == 'switch' else 'all nodes rescaled'
+        goals = []  # (kind, text, negated goal smt, steering smt or None)
+        inv_lines = []
+        if run.raised:
+            # the kernel is entered only after a site likelihood evaluated to +0: impossible when no node is below the threshold
+            for L in run.plain_logargs:
+                _, z, e, cz = ref[L]
+                goals.append(('reach', f'no node below the threshold => plain site likelihood {d.to_str(L, 3)} is not +0', z, cz))
+        else:
+            for x in run.dens:
+                _, z, e, cz = ref[x]
+                goals.append(('den', f'scaler {d.to_str(x, 3)} >= 2^{SW_B}', f'(or {z} (< {e} {SW_B}.0))', cz))
+            for x in run.logargs:
+                _, z, e, cz = ref[x]
+                goals.append(('log', f'log argument {d.to_str(x, 3)} >= 2^{SW_B}', f'(or {z} (< {e} {SW_B}.0))', cz))
+            for nd in range(n, 2 * n - 1):
+                bound = d.const(0.5) if nd in run.recomputed else d.const(leaf_bound)
+                for site, c in enumerate(sw_column_invariant(d, run.final[nd], bound)):
+                    l2, r2, _ = fp.lower_mag(d, [c])
+                    inv_lines.append(l2)
+                    goals.append(('inv', f'node {nd} ({"rescaled" if nd in run.recomputed else "kept"}) site {site}: some entry >= '
+                                         f'{"1/2" if nd in run.recomputed else "threshold"}', f'(not {r2[c][1]})', None))
+        den_failed = False
+        for kind, gtxt, neg, steer in goals:
+            if den_failed and kind in ('log', 'inv'):
+                # these are stated under "all scalers are normal": a division by an underflowed scaler leaves them unconstrained
+                tr.notes.append(f'{label} [{region_txt}]: {gtxt}: not examined, a scaler of this region can underflow')
+                continue
+            text, gv = fp.mag_script([lines] + inv_lines, hyps + [neg], getters(inputs))
+            tr.obligation(text)
+            res = smt.solve_text(text, get_values=gv, **solver_kw)
+            if res.status == 'unsat':
+                continue
+            den_failed = den_failed or kind == 'den'
+            if res.status != 'sat':
+                tr.inconc(f'{label} [{region_txt}]: {gtxt}: undecided')
+                continue
+            # sat: replay on the real code with plain tensors.  Candidates for the replay: the steered model (the failing quantity is exactly zero with a margin), comparisons of
+            # the hypotheses decided by a factor >= 4 (the concrete point then satisfies them in Float64), then the raw models
+            cands = []
+            robust = list(dict.fromkeys(fp.mag_margins(d, list(run.pcs) + leaf_inv_nodes(run), ref, 2)))
+            for extra_c in ([[steer] + robust, [steer]] if steer else []) + [[neg] + robust]:
+                text2, gv2 = fp.mag_script([lines] + inv_lines, hyps + extra_c, getters(inputs))
+                res2 = smt.solve_text(text2, get_values=gv2, **solver_kw)
+                if res2.status == 'sat':
+                    cands.append(model_to_W(inputs, res2.values))
+            cands.append(model_to_W(inputs, res.values))
+            rep = None
+            detail = 'no model of the abstraction is a point of the input domain in Float64'
+            for Wc in cands:
+                if not sw_in_domain(Wc, n, S, N, leaf_bound):
+                    continue
+                ok, detail, info = sw_replay(topo, n, S, N, Wc, mode, allow_oracle=kind != 'reach')
+                if ok:
+                    rep = (Wc, detail, info)
+                    break
+            if kind == 'inv':
+                # the induction step fails: not a value error by itself
+                if rep is None:
+                    tr.inconc(f'{label} [{region_txt}]: induction step not closed: {gtxt} (solver counterexample; the value itself agrees '
+                              f'with the exact reference on the replay)')
+                    continue
+            if rep is None:
+                tr.inconc(f'{label} [{region_txt}]: {gtxt} fails in the abstraction, not reproduced on the real code ({detail})')
+                continue
+            sig = sig_under if kind in ('den', 'log', 'inv') else 'TreeLikelihoodModel:switch-evaluation:raises'
+            if sig in reported:
+                continue
+            reported.add(sig)
+            Wc, detail, info = rep
+            api = ''
+            if mode == 'switch':
+                try:
+                    okA, dA = sw_api_confirmation()
+                    api = ('; public API: ' + dA) if okA else f'; public API confirmation not found ({dA})'
+                except Exception as e:  # confirmation only
+                    api = f'; public API confirmation raised {type(e).__name__}: {e}'
+            what = (f'{label} [{region_txt}]: "{gtxt}" does not hold; replay of the real code on plain tensors (children = partial vectors of '
+                    f'sub-trees): {detail}{api}')
+            tr.violation(sig, what, {'inputs': {k: repr(v) for k, v in Wc.items()}, 'info': info, 'mode': mode,
+                                     'instance': [topo_name, S, N], 'goal': gtxt})
+    tr.sample({'case': label, 'threshold': thr0, 'regions': [('raised' if rg[0].raised else rg[0].recomputed) for rg in regions],
+               'obligations': 'scalers and log arguments >= 2^-969; every node again has an entry >= threshold per site'})
+
+
 def run_task(task, tr):
-    {'algebra': algebra_task, 'history': history_task, 'fp': fp_task, 'fpscalers': fpscalers_task}[task[0]](task, tr)
+    {'algebra': algebra_task, 'history': history_task, 'fp': fp_task, 'fpscalers': fpscalers_task, 'fpswitch': fpswitch_task}[task[0]](task, tr)
 
 
 # the thorough tier keeps ~35 tasks x 3 solver processes busy on 16 cores: wall-clock solver budgets are scaled so
@@ -596,6 +1157,16 @@ def tasks_for(tier):
     ts.append(('fpscalers', 'calculate_treelikelihood_tip_states_discrete_rescaled'))
     if tier == 'thorough':
         ts.append(('fp', True, 1200))
+    # (d) floating point of the evaluation that switches rescaling on (model's own threshold) and of the evaluations after it
+    ts.append(('fpswitch', 'caterpillar3', 2, 2, 'switch'))
+    ts.append(('fpswitch', 'balanced4', 2, 2, 'switch'))
+    ts.append(('fpswitch', 'caterpillar3', 2, 2, 'later'))
+    if tier == 'thorough':
+        ts.append(('fpswitch', 'balanced4', 4, 1, 'switch'))
+        ts.append(('fpswitch', 'caterpillar3', 4, 2, 'switch'))
+        ts.append(('fpswitch', 'caterpillar4', 2, 2, 'switch'))
+        ts.append(('fpswitch', 'balanced4', 4, 1, 'later'))
+        ts.append(('fpswitch', 'balanced4', 2, 2, 'later'))
     return ts
 
 
@@ -604,7 +1175,10 @@ def body(chk):
                        'replaced by an enumerated underflow oracle; per-node maxima and threshold comparisons are path regions; '
                        'exp-lifted identities decided over the reals. (c): the plain kernel\'s DAG lowered to QF_FP (Float64 vs '
                        'Float128) asks for normal inputs giving a finite but inaccurate value; sat answers are confirmed through the '
-                       'public API')
+                       'public API. (d): the real switch code with the model\'s own threshold on bounded trees whose leaves are partial '
+                       'vectors of arbitrary sub-trees; Float64 lowered to a sound log2-magnitude relation (QF_LRA): no scaler / log '
+                       'argument of the switching evaluation (or of later, rescaled evaluations) can underflow; path regions = which nodes '
+                       'are recomputed, coverage certified by a closure query')
     chk.total.assumptions |= {'(a),(b) over the reals: they show the rescaled formulas are algebraically the plain formula; the accuracy to '
                               '1e-8 for large trees is a floating-point statement addressed only by (c)',
                               'the rescaled path is used as extended-range reference in the API confirmation of (c)',
